@@ -2,9 +2,13 @@
    value as stored in a row record).  Layout: total_size u32 | elem_type u8 | ndims u8 | len u16 |
    null bitmap ceil(len/8) | fixed-width elements, or u32 offset table + variable-width data.
    Hand-transcribed (byte-array patterns `u32::from_le_bytes([self.data[0], ..])` and &str are outside
-   the rs2v subset).  ArrayView::new only checks `data.len() >= 8`; every getter then indexes
-   `self.data[..]` by positions computed from the stored len / offsets WITHOUT a bounds check, and
-   elem_type() `expect`s a valid type byte - all of that is modelled as it is (Panic).
+   the rs2v subset), as of /repo commit 5281222: ArrayView::new checks `data.len() >= 8` and then
+   validate(): a known element type, and the null bitmap + element area (fixed-width types) or the offset
+   table with in-order offsets inside total_size <= data.len() (variable-width types).  The getters
+   themselves still index `self.data[..]` unchecked and elem_type() still `expect`s - modelled as they are
+   (Panic); they rely on new().  What new() does NOT establish: that the caller picks the getter of the
+   stored element type - `array_elem` below is the dispatch of the one caller (sql/decoder.rs format_array).
+   Before 5281222 new() only checked the length (findings F-C23-6, F-C23-7, fixed).
    std::str::from_utf8 is Model/Utf8.v valid_utf8 (shared).  Definitions only, no proofs. *)
 From Coq Require Import ZArith List Bool.
 From TV Require Import Lib.MachInt Model.Utf8 Model.StoredBytes.
@@ -12,9 +16,6 @@ Import ListNotations.
 Open Scope Z_scope.
 
 Definition ARRAY_HEADER_SIZE : Z := 8.          (* const HEADER_SIZE *)
-
-(* ArrayView::new *)
-Definition array_new (d : list Z) : res unit := if blen d <? ARRAY_HEADER_SIZE then Err else Ok tt.
 
 (* u16 / u32 ::from_le_bytes([self.data[p], self.data[p+1], ..]) : n unchecked single-byte reads *)
 Fixpoint le_at (d : list Z) (p : Z) (n : nat) : res Z :=
@@ -55,6 +56,43 @@ Definition get_bool (d : list Z) (i : Z) : res bool :=
 (* read_offset(idx) *)
 Definition read_offset (d : list Z) (n i : Z) : res Z := le_at d (ARRAY_HEADER_SIZE + bitmap_size n + i * 4) 4.
 
+(* DataType::fixed_size of a valid discriminant (src/types/data_type.rs) *)
+Definition elem_fixed_size (b : Z) : option Z :=
+  if b =? 0 then Some 1 else if b =? 1 then Some 2 else if b =? 2 then Some 4 else if b =? 3 then Some 8
+  else if b =? 4 then Some 4 else if b =? 5 then Some 8 else if b =? 6 then Some 4 else if b =? 7 then Some 8
+  else if b =? 8 then Some 8 else if b =? 9 then Some 12 else if b =? 10 then Some 16 else if b =? 11 then Some 6
+  else if b =? 12 then Some 4 else if b =? 13 then Some 16 else if b =? 31 then Some 16 else if b =? 40 then Some 9
+  else if b =? 41 then Some 17 else if b =? 42 then Some 9 else if b =? 43 then Some 17 else if b =? 50 then Some 4
+  else if b =? 60 then Some 16 else if b =? 61 then Some 32 else if b =? 62 then Some 24 else None.
+
+(* the loop of validate(): `for idx in 0..len { start = read_offset(idx); ensure!(prev <= start <= total - data_start) }` *)
+Fixpoint offsets_ok (d : list Z) (n room : Z) (k : nat) (i prev : Z) : res unit :=
+  match k with
+  | O => Ok tt
+  | S k' =>
+      st <- read_offset d n i ;;
+      if (prev <=? st) && (st <=? room) then offsets_ok d n room k' (i + 1) st else Err
+  end.
+
+(* validate() *)
+Definition array_validate (d : list Z) : res unit :=
+  b <- idx d 4 ;;
+  if dtype_code_ok b then
+    n <- alen d ;;
+    let table_start := ARRAY_HEADER_SIZE + bitmap_size n in
+    match elem_fixed_size b with
+    | Some sz => if table_start + n * sz <=? blen d then Ok tt else Err
+    | None =>
+        let ds := table_start + n * 4 in
+        total <- total_size d ;;
+        if (ds <=? total) && (total <=? blen d) then offsets_ok d n (total - ds) (Z.to_nat n) 0 0 else Err
+    end
+  else Err.
+
+(* ArrayView::new *)
+Definition array_new (d : list Z) : res unit :=
+  if blen d <? ARRAY_HEADER_SIZE then Err else array_validate d.
+
 (* get_var_bounds *)
 Definition get_var_bounds (d : list Z) (i : Z) : res (Z * Z) :=
   n <- alen d ;;
@@ -76,17 +114,20 @@ Definition get_blob (d : list Z) (i : Z) : res (list Z) :=
 Definition get_text (d : list Z) (i : Z) : res (list Z) :=
   b <- get_blob d i ;; if valid_utf8 b then Ok b else Err.
 
-(* ------------------------------------------------------------------ where the getters go wrong *)
-(* the type byte is no DataType discriminant (class of finding F-C23-6) *)
-Definition array_type_bad (d : list Z) : bool := negb (dtype_code_ok (bidx d 4)).
-
-(* ------------------------------------------------------------------ sufficient conditions *)
+(* ------------------------------------------------------------------ what each getter needs *)
 (* the null bitmap lies inside the data *)
 Definition wf_bitmap (d : list Z) : bool :=
   (ARRAY_HEADER_SIZE <=? blen d) &&
   match alen d with Ok n => ARRAY_HEADER_SIZE + bitmap_size n <=? blen d | _ => false end.
-(* variable-width arrays: bitmap and offset table lie inside the data, total_size covers them, and the
-   element i announced by the offset table is a slice of the data *)
+(* fixed-width getters of width w: the element area lies inside the data *)
+Definition wf_fixed (d : list Z) (w : Z) : bool :=
+  (ARRAY_HEADER_SIZE <=? blen d) &&
+  match alen d with
+  | Ok n => ARRAY_HEADER_SIZE + bitmap_size n + n * w <=? blen d
+  | _ => false
+  end.
+(* get_blob / get_text of element i: bitmap and offset table lie inside the data, total_size covers them, and the
+   element announced by the offset table is a slice of the data *)
 Definition wf_var (d : list Z) (i : Z) : bool :=
   (ARRAY_HEADER_SIZE <=? blen d) &&
   match alen d, total_size d with
@@ -99,11 +140,19 @@ Definition wf_var (d : list Z) (i : Z) : bool :=
       end
   | _, _ => false
   end.
-(* a decidable well-formedness under which no getter panics: the header is there, the null bitmap and
-   (fixed: the element area of width w; variable: the offset table) lie inside the data *)
-Definition wf_fixed (d : list Z) (w : Z) : bool :=
-  (ARRAY_HEADER_SIZE <=? blen d) &&
-  match alen d with
-  | Ok n => ARRAY_HEADER_SIZE + bitmap_size n + n * w <=? blen d
-  | _ => false
-  end.
+
+(* ------------------------------------------------------------------ the caller's dispatch *)
+(* sql/decoder.rs format_array, one element: is_null first, then the getter selected by elem_type();
+   result: 0 = NULL, [1; v] a fixed-width value, the bytes of a text / blob, or nothing for a type it prints as "?" *)
+Inductive elem := ENull | ENum (v : Z) | EBytes (b : list Z) | EOther.
+Definition array_elem (d : list Z) (i : Z) : res elem :=
+  t <- elem_type d ;;
+  nl <- is_null d i ;;
+  if (nl : bool) then Ok ENull
+  else if t =? 1 then v <- get_fixed d 2 i ;; Ok (ENum v)
+  else if (t =? 2) || (t =? 4) then v <- get_fixed d 4 i ;; Ok (ENum v)
+  else if (t =? 3) || (t =? 5) then v <- get_fixed d 8 i ;; Ok (ENum v)
+  else if t =? 0 then v <- get_bool d i ;; Ok (ENum (if (v : bool) then 1 else 0))
+  else if (t =? 20) || (t =? 24) || (t =? 25) then b <- get_text d i ;; Ok (EBytes b)
+  else if t =? 21 then b <- get_blob d i ;; Ok (EBytes b)
+  else Ok EOther.
